@@ -2,12 +2,14 @@
 
 Enumerated: designspaces = master-location sets on user-space lattices (1 axis: every subset of
 {min, 1/4, mid, 3/4, max} containing the default; 2 axes: every subset of bounded size of the 3x3
-lattice containing the default; 3 axes: default + corners + at most one further lattice point)
+lattice containing the default; 3 axes: default + corners + at most one (thorough: two) further lattice points)
 x default at an end / in the middle x axis map {none, lin (knots at min/default/max: 2 when the
 default is at an end), bent (+1 knot off the line)} x outline kind {TrueType -> gvar, CFF -> CFF2}
 x content {outlines, composites, pair+class kerning, kerning with differing pair sets, mark
 anchors, OS/2-hhea-post metrics (MVAR), sparse glyph master, sparse layout master}
-x IUP optimisation on/off; plus every corpus designspace bound to its TTX masters.
+x IUP optimisation on/off x source order (default master first / not first); every family has a
+probe glyph whose deltas are almost, but not within 0.5, inferable (IUP must keep them); plus
+every corpus designspace bound to its TTX masters (compiled, as the test-suite hands them over).
 
 Oracle: varLib.build result saved and reopened; at every master's location - user coordinates
 obtained from the source's design location through the inverse axis map of oracles.c10_ref,
@@ -195,7 +197,7 @@ def raw_streams_close(ra, rb, tol):
     return None
 
 
-def check_vf(vfdata, axes, masters, rec, opt, cls, where, rules=False, avar2=False):
+def check_vf(vfdata, axes, masters, rec, opt, cls, where, rules=False, avar2=False, require_exact=False):
     """masters: [(Master, [design coordinate per axis], is_default)]."""
     def viol(fkey, msg):
         rec.violation(fkey, where + ": " + msg)
@@ -263,6 +265,8 @@ def check_vf(vfdata, axes, masters, rec, opt, cls, where, rules=False, avar2=Fal
         efactor = 0.0 if exact else float(sum((e + (F(1, 32768) if ia else 0)) * F(101, 100) / w for e, ia, w in zip(E, inexact_axis, wmin)))
         if exact:
             rec.witness("master location exactly on the 2.14 grid")
+        elif require_exact:
+            raise AssertionError("engine self-check: a generated lattice position does not normalise exactly on the 2.14 grid: %s vs %s" % ([float(v) for v in xp], [float(v) for v in x]))
         else:
             rec.witness("master location off the 2.14 grid (quantisation budget applies)")
         names = [n for n in m.names if n in vf.gid]
@@ -304,6 +308,12 @@ def check_vf(vfdata, axes, masters, rec, opt, cls, where, rules=False, avar2=Fal
                         rec.witness("composite glyph varies" if vf.components(n) else "gvar glyph varies")
                     else:
                         rec.witness("cff2 blended glyph varies")
+            if m.complete and "vmtx" in m.view.tt and "vmtx" in vf.tt:
+                va, vb = vf.hb.v_advance(vf.gid[n]), m.view.hb.v_advance(m.view.gid[n])
+                if abs(va - vb) > (0 if is_def else int(1 + vf.store_magnitude("VVAR") * efactor)):
+                    viol("advance:vertical:%s%s" % (cls, ":default-master" if is_def else ""), "%s glyph %r: vertical advance %s at the master's location, master has %s" % (lbl, n, va, vb))
+                if default_obs is not None and not is_def and "VVAR" in vf.tt:
+                    rec.witness("vertical advances compared (VVAR)")
             if "hmtx" not in m.view.tt:
                 continue
             m_adv_tt = m.view.tt["hmtx"].metrics[n][0]
@@ -401,7 +411,12 @@ def sparse_index(midx, dflt):
     return len(midx) - 1 if len(midx) > 1 else None
 
 
-def variants(naxes, dflt, midx, contents=CONTENTS, maps=("none", "lin", "bent"), kinds=("ttf", "cff")):
+ROT_CONTENTS = ("outl", "kern", "sparseg")
+
+
+def variants(naxes, dflt, midx, coef, contents=CONTENTS, maps=("none", "lin", "bent"), kinds=("ttf", "cff")):
+    """Case descriptors (dicts) of one master set.  "rot": the designspace lists its sources
+    rotated by that many places (the default master is then not the first source)."""
     for mapk in maps:
         for kind in kinds:
             for content in contents:
@@ -412,9 +427,14 @@ def variants(naxes, dflt, midx, contents=CONTENTS, maps=("none", "lin", "bent"),
                     sp = sparse_index(midx, dflt)
                     if sp is None:
                         continue
-                yield [naxes, list(dflt), [list(i) for i in midx], mapk, kind, content, True, sp]
+                base = {"n": naxes, "d": list(dflt), "m": [list(i) for i in midx], "map": mapk, "kind": kind, "content": content, "opt": True, "sp": sp, "coef": coef, "rot": 0}
+                yield base
                 if kind == "ttf" and content in OPT_OFF_CONTENTS and mapk == "none":
-                    yield [naxes, list(dflt), [list(i) for i in midx], mapk, kind, content, False, sp]
+                    yield dict(base, opt=False)
+                if len(midx) > 1 and content in ROT_CONTENTS and mapk == "lin":
+                    yield dict(base, rot=1)
+                    if len(midx) > 2:
+                        yield dict(base, rot=len(midx) - 1)
 
 
 class Generated(Unit):
@@ -431,18 +451,18 @@ class Generated(Unit):
         pass
 
     def check(self, case, rec):
-        naxes, dflt, midx, mapk, kind, content, opt, sp = case[:8]
-        coef = case[8] if len(case) > 8 else getattr(self, "coef", 0)
+        naxes, dflt, midx, mapk, kind, content, opt, sp, coef, rot = (case[k] for k in ("n", "d", "m", "map", "kind", "content", "opt", "sp", "coef", "rot"))
         fam = dict(naxes=naxes, dflt=dflt, map=mapk, kind=kind, content=content, coef=coef)
         axes = cm.fam_axes(fam)
-        ms = [gen_master(fam, idx, sparse=(i == sp)) for i, idx in enumerate(midx)]
-        fonts = [TTFont(io.BytesIO(m.data)) for m in ms]
-        ds = cm.designspace(fam, [tuple(i) for i in midx], fonts, axes)
+        entries = [(idx, gen_master(fam, idx, sparse=(i == sp))) for i, idx in enumerate(midx)]
+        entries = entries[rot:] + entries[:rot]
+        fonts = [TTFont(io.BytesIO(m.data)) for _idx, m in entries]
+        ds = cm.designspace(fam, [tuple(idx) for idx, _m in entries], fonts, axes)
         vf, _model, _ = varLib.build(ds, optimize=opt)
         data = tinyfont.to_bytes(vf)
-        masters = [(m, [ax["design"][i] for ax, i in zip(axes, idx)], list(idx) == list(dflt)) for m, idx in zip(ms, midx)]
-        where = "%d-axis %s/%s map=%s default=%s masters=%s optimize=%s coef=%d" % (naxes, kind, content, mapk, dflt, midx, opt, coef)
-        check_vf(data, axes, masters, rec, opt, "%s/%s" % (kind, content), where)
+        masters = [(m, [ax["design"][i] for ax, i in zip(axes, idx)], list(idx) == list(dflt)) for idx, m in entries]
+        where = "%d-axis %s/%s map=%s default=%s masters=%s (source order rotated by %d) optimize=%s coef=%d" % (naxes, kind, content, mapk, dflt, midx, rot, opt, coef)
+        check_vf(data, axes, masters, rec, opt, "%s/%s" % (kind, content), where, require_exact=True)
         # shape witnesses of the input
         others = [idx for idx in midx if list(idx) != list(dflt)]
         if not others:
@@ -458,6 +478,8 @@ class Generated(Unit):
                 rec.witness("on-axis-only master set")
         if not opt:
             rec.witness("optimize=False build")
+        if rot:
+            rec.witness("default master is not the first source")
         if sp is not None:
             rec.witness("sparse %s master" % ("glyph" if content == "sparseg" else "layout"))
         rec.witness("default %s" % ("at an end" if all(d in (0, 4) for d in dflt) else "in the middle" if all(d == 2 for d in dflt) else "mixed end/middle"))
@@ -470,23 +492,26 @@ COMMON_WITNESSES = (
     "kerning varies", "kerning pair present in some masters only", "mark offset varies", "MVAR metric varies",
     "sparse glyph master", "sparse layout master", "sparse master: no layout tables (shaping not compared there)",
     "IUP-optimised tuple (inferred deltas) in gvar", "optimize=False build", "default at an end", "default in the middle",
+    "default master is not the first source",
 )
 
 
 class OneAxis(Generated):
     name = "generated-1axis"
     naxes = 1
-    rule = ("1 axis, 5 user positions {min,1/4,mid,3/4,max}: EVERY subset containing the default x default at {min, mid} (thorough: + max) x map {none, lin, bent} x {ttf, cff} x 8 contents (+ optimize=False for glyph contents); "
+    rule = ("1 axis, 5 user positions {min,1/4,mid,3/4,max}: EVERY subset containing the default x default at {min, mid} (thorough: + max, and all four value coefficients) x map {none, lin, bent} x {ttf, cff} x 8 contents (+ optimize=False for glyph contents, + rotated source order for outl/kern/sparseg); "
             "oracle: VF at each master's user location (HarfBuzz: fvar+avar+gvar/CFF2/HVAR/GPOS/MVAR) == static master within the derived budget, default master exact, fvar/avar == designspace maps at knots and midpoints; distinct = designspace with a varying non-default master")
     required_witnesses = COMMON_WITNESSES + ("single master (no variation)",)
 
     def cases(self, tier, seed):
-        for d in ((0, 2) if tier == "quick" else (0, 2, 4)):
-            rest = [i for i in range(5) if i != d]
-            for r in range(0, 5):
-                for sub in itertools.combinations(rest, r):
-                    midx = [(d,)] + [(i,) for i in sub]
-                    yield from (c + [self.coef] for c in variants(1, (d,), midx))
+        coefs = (self.coef,) if tier == "quick" else COEFS
+        for coef in coefs:
+            for d in ((0, 2) if tier == "quick" else (0, 2, 4)):
+                rest = [i for i in range(5) if i != d]
+                for r in range(0, 5):
+                    for sub in itertools.combinations(rest, r):
+                        midx = [(d,)] + [(i,) for i in sub]
+                        yield from variants(1, (d,), midx, coef)
 
 
 class TwoAxes(Generated):
@@ -506,7 +531,7 @@ class TwoAxes(Generated):
             for r in range(0, size):
                 for sub in itertools.combinations(rest, r):
                     midx = [d] + list(sub)
-                    yield from (c + [self.coef] for c in variants(2, d, midx))
+                    yield from variants(2, d, midx, self.coef)
 
 
 class ThreeAxes(Generated):
@@ -526,7 +551,7 @@ class ThreeAxes(Generated):
             if tier == "thorough":
                 sets += [base + [e, f] for e, f in itertools.combinations(extra, 2)]
             for midx in sets:
-                yield from (c + [self.coef] for c in variants(3, d, midx))
+                yield from variants(3, d, midx, self.coef)
 
 
 # ----------------------------------------------------------------------------- corpus
@@ -539,7 +564,8 @@ class Corpus(Unit):
     rule = ("every designspace of Tests/varLib/data bound to its TTX masters (all master_* bindings) x optimize {True, False}: varLib.build, saved and reopened; every TTX master compiled and compared with the VF at that master's location "
             "(glyphs the master has; outlines, advances, HVAR exact, shaping of all pairs over <=24 characters preferring GPOS-covered glyphs, MVAR metrics) within the budget incl. the computed 2.14 quantisation bound; fvar/avar vs designspace maps; distinct = (designspace binding, optimize)")
     required_witnesses = ("default master compared exactly", "master location off the 2.14 grid (quantisation budget applies)", "gvar glyph varies", "cff2 blended glyph varies",
-                          "kerning varies", "avar segment with an extra knot built", "sparse master: empty glyph treated as missing", "HVAR advance varies")
+                          "kerning varies", "avar segment with an extra knot built", "sparse master: empty glyph treated as missing", "HVAR advance varies",
+                          "vertical advances compared (VVAR)", "incomplete sparse master observed through its tables", "kerning pair present in some masters only", "MVAR metric varies")
 
     def setup(self, tier, seed):
         if not _CORPUS:
